@@ -16,6 +16,18 @@ FlattenEquiv, for each of the 8 feature assignments, loads both sets into two co
       generated instance documents (valid by construction, and single mutations of them) in both contexts.
 LoadOrder loads the structured set in every order of its modules (also: implemented later through lys_set_implemented,
 and LY_CTX_EXPLICIT_COMPILE + ly_ctx_compile) and compares the compiled prints of all modules with the first order.
+
+Every difference seen while writing the flattener was investigated; what remained is libyang's (known_findings.d/flatten.json):
+  refine-nested-inner-wins       a property refined by the uses nested in a grouping is not changed by the refine of the
+                                 outer uses (libyang applies the outer refine first); attributed by loading a third set,
+                                 flattened with that order, which must then print like the structured set
+  leaflist-min-typedef-default   a leaf-list with min-elements >= 1 keeps the default of its typedef (recognised in the
+                                 print; documents without an instance are accepted)
+  typedef-chain-inherit-null     crash; the generator avoids the shape (middle typedef of a chain of three without
+                                 default / units), the finding is replayed from its recorded witness
+Legitimate differences the flattener follows instead of normalising: the implicit case of a shorthand node added to a choice
+by a conditional augment is written as an explicit case carrying the condition; the children that the augments of nested
+uses add to one node are written in libyang's order (outer uses first).
 """
 import itertools
 import re
@@ -482,6 +494,8 @@ class Flattener:
                         if x.kw == s.kw and x.arg == s.arg:
                             cur.subs.remove(x)
                             break
+                    else:
+                        self.dev_mismatch = True       # RFC 7950 7.20.3.2: the deviation is in error
 
     # ---- types ----
     def type_eff(self, t):
@@ -837,20 +851,20 @@ class Gen:
         need_dflt = dflt is not None and not eff.accepts(dflt)
         if (r < 0.45 or need_dflt) and eff.builtin != "boolean":
             vals = []
-            for _ in range(rng.choice([1, 2, 3])):
+            for _ in range(rng.choice([1, 2, 3, 4, 5])):
                 v = pick_value(rng, eff)
                 if v not in vals and canon_key(eff, v) not in [canon_key(eff, x) for x in vals]:
                     vals.append(v)
             for v in vals:
                 ll.add(S("default", v))
-        elif r < 0.6 and allow_mand and not need_dflt and (dflt is None or rng.random() < 0.15):
+        elif r < 0.75 and allow_mand and not need_dflt and (dflt is None or rng.random() < 0.15):
             # (mostly without a default in the type: listed finding leaflist-min-typedef-default)
             ll.add(S("min-elements", str(rng.choice([1, 2]))))
         elif need_dflt:
             ll.add(S("default", pick_value(rng, eff)))
         if rng.random() < 0.3:
             # (at least as many as there are default values: otherwise no document without the leaf-list is valid)
-            ll.add(S("max-elements", str(max(rng.choice([2, 3, 4]), len(ll.findall("default")), 1 if dflt is None else 1))))
+            ll.add(S("max-elements", str(max(rng.choice([2, 3, 4]), len(ll.findall("default"))))))
         if rng.random() < 0.2:
             ll.add(S("if-feature", iff_text(iff_gen(rng), "" if mod == "fa" else "a:")))
         return ll.stamp(mod)
@@ -973,8 +987,11 @@ class SetGen(Gen):
         preview = self.fl.expand_nodes([c.copy() for c in g.subs if c.kw in DATA_KW])
         cands = list(walk(preview))
         rng.shuffle(cands)
+        if rng.random() < 0.7:
+            cands.sort(key=lambda x: 0 if (x[1].kw in ("leaf-list", "list") and int(x[1].val("min-elements", "0")) > 0) else
+                       1 if x[1].kw in ("leaf-list", "list") else 2)
         done = set()
-        for path, t, is_key, state, in_choice in cands[:rng.choice([0, 1, 2, 3, 4])]:
+        for path, t, is_key, state, in_choice in cands[:rng.choice([1, 2, 3, 4, 5])]:
             rf = self.refine(path, t, is_key, state, mod, no_mand=bool(in_choice) or mod != "fa")
             if rf is not None and path not in done:
                 done.add(path)
@@ -1016,7 +1033,13 @@ class SetGen(Gen):
             mn, mx = int(t.val("min-elements", "0")), t.val("max-elements")
 
             def minmax():
-                if not t.findall("default") and mod == "fa" and rng.random() < 0.5 and (dflt is None or rng.random() < 0.15) and \
+                if mn > 0 and rng.random() < 0.7:
+                    # change a min-elements that is already there (up or down)
+                    nm_ = rng.choice([mn + 1, mn - 1])
+                    rf.add(S("min-elements", str(nm_)))
+                    if mx is not None and int(mx) < nm_:
+                        rf.add(S("max-elements", str(nm_ + 1)))
+                elif not t.findall("default") and mod == "fa" and rng.random() < 0.5 and (dflt is None or rng.random() < 0.15) and \
                         (dflt is None or eff.accepts(dflt)):
                     rf.add(S("min-elements", str(rng.choice([1, 2]))))
                     rf.add(S("max-elements", str(rng.choice([2, 3, 5]))))
@@ -1181,6 +1204,10 @@ class SetGen(Gen):
                                    S("import", "fa").add(S("prefix", "a")))
         cand = [x for x in nodes if x[0] != "top" and x[0] != "top/mode"]
         rng.shuffle(cand)
+        # the rarer shapes first now and then: a leaf-list with several default values (deviate delete of one of them)
+        if rng.random() < 0.85:
+            cand.sort(key=lambda x: 0 if (x[1].kw == "leaf-list" and len([d for d in x[1].findall("default")
+                                                                              if not getattr(d, "inherited", False)]) >= 2) else 1)
         used = []
         for p, n, is_key, state, ic in cand:
             if len(used) >= rng.choice([2, 3, 4, 5]):
@@ -1240,7 +1267,9 @@ class SetGen(Gen):
             ds = expl("default")
             if len(ds) >= 2:
                 opts.append(lambda: dev.add(S("deviate", "delete").add(S("default", rng.choice(ds).arg))))
-                opts.append(lambda: dev.add(S("deviate", "delete").add(S("default", ds[-1].arg))))
+                opts.append(lambda: dev.add(S("deviate", "delete").add(S("default", ds[0].arg))))
+                if rng.random() < 0.7:
+                    opts[:] = opts[-2:]
             if mn == 0 and eff.builtin != "boolean" and (mx is None or len(ds) < int(mx)):
                 def add_d():
                     v = pick_value(rng, eff)
@@ -1638,9 +1667,18 @@ def make_sets(rng):
     devs = mods["fd"].findall("deviation")
     fd_plain = S("module", "fd").add(*[s.copy() for s in mods["fd"].subs if s.kw in ("yang-version", "namespace", "prefix", "import")])
 
+    bad_dev = []
+
     def flat(**kw):
         fl = Flattener(mods, **kw)
-        return {"fa": fl.flatten_module("fa", devs), "fb": fl.flatten_module("fb"), "fd": fd_plain}
+        fl.dev_mismatch = False
+        r = {"fa": fl.flatten_module("fa", devs), "fb": fl.flatten_module("fb"), "fd": fd_plain}
+        if fl.dev_mismatch and kw:
+            # with the emulated finding a deviate delete has nothing to delete: fd is rejected; written as a module
+            # that does not parse so that the emulating set fails at the same step
+            r["fd"] = S("module", "fd").add(S("invalid-by-emulation", "x"))
+            bad_dev.append(1)
+        return r
     f0 = flat()
     alts = {}
     for tag, kw in (("refine-nested-inner-wins", {"inner_refine_wins": True}),):
@@ -1722,7 +1760,7 @@ class FlattenEquiv:
         return line
 
     def gen(self, rng, tier, scale=1.0):
-        return [self.build_case(rng) for _ in range(self.n(tier, 45, 900, scale))]
+        return [self.build_case(rng) for _ in range(self.n(tier, 80, 900, scale))]
 
     def judge(self, line, out):
         if crashed(out):
@@ -1747,6 +1785,13 @@ class FlattenEquiv:
             if not oks and not okf:
                 continue                      # both reject the generated set: not a case for this oracle
             if oks != okf:
+                # the same verdict from the flattening that emulates a listed finding?
+                for (e2, cset), items in by.items():
+                    if e2 == ei and cset not in ("s", "f") and \
+                            [x.split("/")[0] for m, x in items if m[0] == "load"] == [x.split("/")[0] for x in ls]:
+                        tag = next(m[3] for m, x in items if m[0] == "schema")
+                        return (tag, "features %d: the structured set is rejected exactly as the flattening that emulates the "
+                                "listed finding: %s" % (ei, ls))
                 return (None, "features %d: the structured set %s, the flattened twin %s: %s / %s" %
                         (ei, "loads" if oks else "is rejected", "loads" if okf else "is rejected", ls, lf))
             judged = True
